@@ -271,8 +271,17 @@ func rulesC06(c *Ctx) {
 		}
 		c.Check(found, "handle:unsupported-version-return", h, nil, "a return with CodeUnsupportedProtocolVersion exists")
 		// the complementary test: dispatch of a new-protocol request implies the version is supported
-		dg := g.GuardsAt(hv)
-		_ = dg
+		// (every other condition left open — in particular whether the session already counts as initialized)
+		reach := g.ReachUnder(func(e ast.Expr) tri {
+			if h.IsField(e, unp) {
+				return triTrue
+			}
+			if ce, ok := e.(*ast.CallExpr); ok && len(ce.Args) == 2 && h.ObjOf(ce.Args[0]) == supp {
+				return triFalse
+			}
+			return triUnknown
+		}, nil)
+		c.Check(!reach[hv], "handle:unsupported-version-never-dispatched", h, g.Node(hv), "with usesNewProtocol and a version outside supportedProtocolVersions the dispatch is unreachable whatever else holds (initialized or not)")
 		// validateRequestMeta's own returns
 		v := c.Fn(pM, "", "validateRequestMeta")
 		vg := v.Graph()
